@@ -8,7 +8,7 @@ bound.  Every produced tree is checked against RefGrammar (C01) and parsed back 
 from __future__ import annotations
 
 from mc import families
-from mc.common import Ctx, pmap, rotate
+from mc.common import Ctx, pmap, rotate, tag, pmap_tagged
 from mc.explore import dfs
 from mc.fd import AdmissionCounter, Budget, Timeout, build, has_helper_symbols, snap, time_limit
 from mc.refgrammar import Alt, Lit, NT, Opt, Plus, RefGrammar, Rep, Rx, Seq, Star, TreeChecker, WordMatcher, snap_text
@@ -147,7 +147,11 @@ def sweep(ctx: Ctx, which: set) -> dict:
     head, tail = its[:30], its[30:]
     its = head + rotate(tail, ctx.seed)
     ctx.log(f"generator sweep over {len(its)} (grammar, budget) pairs for {sorted(which)}")
-    results = pmap(work, [it + (which,) for it in its], chunk=2)
+    tasks = [it + (which,) for it in its]
+    results = pmap_tagged(work, tasks, chunk=2)
+    for t, r in zip(tasks, results):
+        for _, case in r.get("viol", []):
+            tag(case, "mc.gen_sweep", "work", t)
     agg = {"pairs": 0, "runs": 0, "distinct_trees": 0, "capped_pairs": 0, "parse_skipped": 0, "roundtrips": 0, "spec_errors": 0}
     samples = []
     for r in results:
